@@ -8,7 +8,8 @@ Sources (later files override earlier ones, cell by cell):
   mutants/own_r7.tsv               the same for round 7
   mutants/own_all.tsv              every stored change of rounds 1-8 and every regression patch against its own check, checks as of
                                    round 8; own_all_recheck.tsv: the one that had gone quiet (C05-f), after the correction
-  mutants/own_r9.tsv               round 9 against the checks as strengthened after its first pass
+  mutants/own_r9.tsv               round 9: the first-pass rows that were caught, and for the others the individual re-runs
+                                   (tools/mut.sh) after the checks were strengthened
 A blank cell = that (change, check) pair was not run."""
 import collections, os, re
 by=collections.OrderedDict()
